@@ -80,12 +80,25 @@ impl Operation for OpB {
     type Output = OutB;
 }
 
+/// Set by the checks whose shells sometimes answer with a very large value (a response of more than a
+/// megabyte must be routed and decoded like any other); off for the checks that enumerate corruptions of
+/// every byte of every message.
+pub static LARGE_VALUES: std::sync::atomic::AtomicBool = std::sync::atomic::AtomicBool::new(false);
+
+fn tag_for(v: u64) -> String {
+    if v % 211 == 7 && LARGE_VALUES.load(std::sync::atomic::Ordering::Relaxed) {
+        format!("t{v}{}", "p".repeat(1_200_000))
+    } else {
+        format!("t{v}")
+    }
+}
+
 pub fn out_b(v: u64) -> OutB {
-    OutB { v, tag: format!("t{v}") }
+    OutB { v, tag: tag_for(v) }
 }
 /// What a task makes of an OutB: the value if the tag arrived unchanged
 pub fn decode_b(o: OutB) -> u64 {
-    if o.tag == format!("t{}", o.v) {
+    if o.tag == tag_for(o.v) {
         o.v
     } else {
         o.v ^ 0xDEAD_0000_0000
